@@ -682,12 +682,41 @@ func (e *env) c16() {
 	n := e.c.Pick(600, 30000)
 	nRandom := e.c.Pick(200, 30)
 	rng := e.c.Rng
-	e.r.Rule = "valid positions x {no hash move, every generated move, 200 (quick) / 30 (thorough) random 15-bit encodings (foreign moves of other positions, promotion flags on non-promotions, from-squares without an own man, near misses of generated moves)} x history states driven through the exported API (NewMoveRanker/FailHigh/RankNoisy/RankQuiet, stack.Stack) by random FailHigh scripts and by saturating ones (>= 5000 identical updates with extreme depths to the same cells); the sequence (move, weight) yielded by the real picker.Picker (and for every 8th run exhaustion + the final YieldedMoves() buffer) vs the Lean picker model whose ranker replays the same script; checked in Go directly: yielded multiset = generated pseudo-legal moves, no duplicates, hash move first iff IsPseudoLegal, every noisy weight inside the good/bad capture band and every quiet weight within +-3*MaxHistory; evaluations = picker runs; non-trivial = run whose hash move is pseudo-legal (stage 1 + sentinel path) or whose position has both good and bad captures, distinct by (FEN, hash move, history script number)"
+	e.r.Rule = "valid positions (the shared stream plus, evenly interleaved, 700 (quick) / 12000 (thorough) stage-poor positions of posgen.StagePoor: exactly 0..5, mostly 0..2, quiet and noisy moves for either colour - locked pawn rams with and without mutual capture pairs, boxed kings, sparse boards, king+rook at home with the castling set, undefended / pawn-defended victims, en-passant pairs; histogram class[...] / run[...] = how many positions / runs have a stage of size <= 2 and what the hash move leaves in its stage; these get 24 / 8 random encodings) x {no hash move, every generated move, 200 (quick) / 30 (thorough) random 15-bit encodings (foreign moves of other positions, promotion flags on non-promotions, from-squares without an own man, near misses of generated moves)} x history states driven through the exported API (NewMoveRanker/FailHigh/RankNoisy/RankQuiet, stack.Stack) by random FailHigh scripts and by saturating ones (>= 5000 identical updates with extreme depths to the same cells); the sequence (move, weight) yielded by the real picker.Picker (and for every 8th run exhaustion + the final YieldedMoves() buffer) vs the Lean picker model whose ranker replays the same script; checked in Go directly: yielded multiset = generated pseudo-legal moves, no duplicates, hash move first iff IsPseudoLegal, every noisy weight inside the good/bad capture band and every quiet weight within +-3*MaxHistory; evaluations = picker runs; non-trivial = run whose hash move is pseudo-legal (stage 1 + sentinel path) or whose position has both good and bad captures, distinct by (FEN, hash move, history script number)"
+	// positions whose stages are degenerate (0/1/2 quiet moves, 0/1/2 noisy moves): spread evenly between
+	// the positions of the shared stream so that they meet every kind of history state
+	nPoor := e.c.Pick(700, 12000)
+	nRandomPoor := e.c.Pick(24, 8)
 	mr := heur.NewMoveRanker()
 	ms := move.NewStore()
 	script := 0
-	for i := 0; i < n; i++ {
-		fen, src := e.s.Next()
+	poorSeen := 0
+	for i := 0; i < n+nPoor; i++ {
+		var fen, src string
+		nRnd := nRandom
+		wantQ, wantN := -1, -1
+		if i*nPoor/(n+nPoor) != (i+1)*nPoor/(n+nPoor) {
+			if poorSeen < len(posgen.StagePoorCorpus) {
+				fen, src = posgen.StagePoorCorpus[poorSeen], "stagepoor-corpus"
+			} else {
+				for {
+					if p, tg, ok := posgen.StagePoor(rng); ok {
+						fen, src = p.FEN(), "stagepoor-"+tg.Theme
+						wantQ, wantN = tg.Quiet, tg.Noisy
+						break
+					}
+					e.r.Count("stagepoor-draw-failed", 1)
+				}
+			}
+			poorSeen++
+			nRnd = nRandomPoor
+		} else {
+			fen, src = e.s.Next()
+		}
+		grp := "stream"
+		if strings.HasPrefix(src, "stagepoor") {
+			grp = "stagepoor"
+		}
 		b, valid := e.load("C16", fen)
 		if b == nil || !valid {
 			e.r.Count("skipped-invalid:"+src, 1)
@@ -695,6 +724,14 @@ func (e *env) c16() {
 		}
 		e.r.Count("pos:"+src, 1)
 		noisy, quiet := implutil.Gen(b)
+		if wantQ >= 0 {
+			// the generator steers with its own mailbox move count; how often the real generator agrees
+			if len(quiet) == wantQ && len(noisy) == wantN {
+				e.r.Count("stagepoor-target-reached", 1)
+			} else {
+				e.r.Count("stagepoor-target-missed", 1)
+			}
+		}
 		all := append(append([]move.Move{}, noisy...), quiet...)
 		gen := map[move.Move]bool{}
 		for _, m := range all {
@@ -768,10 +805,69 @@ func (e *env) c16() {
 			reqs = append(reqs, line)
 			e.r.Count("failhigh-calls", reps)
 		}
+		// stage sizes of this position under the histories it is picked with: the good-capture stage holds
+		// the noisy moves ranked above 0, the rest stage the losing captures and the quiet moves
+		stageOf := map[move.Move]int{}
+		nGood, nRest := 0, len(quiet)
+		for _, mv := range noisy {
+			if mr.RankNoisy(mv, b, hs) > 0 {
+				nGood++
+				stageOf[mv] = 1
+			} else {
+				nRest++
+				stageOf[mv] = 2
+			}
+		}
+		for _, mv := range quiet {
+			stageOf[mv] = 2
+		}
+		small := func(x int) string {
+			if x > 2 {
+				return "3+"
+			}
+			return strconv.Itoa(x)
+		}
+		if len(quiet) <= 2 || len(noisy) <= 2 {
+			e.r.Count(fmt.Sprintf("class[%s]:quiet=%s,noisy=%s", grp, small(len(quiet)), small(len(noisy))), 1)
+		}
+		if nGood <= 2 || nRest <= 2 {
+			e.r.Count(fmt.Sprintf("class[%s]:goodstage=%s,reststage=%s", grp, small(nGood), small(nRest)), 1)
+			e.r.Count(fmt.Sprintf("class[%s]:some-stage<=2", grp), 1)
+		}
+		if len(noisy) > 0 && nGood == len(noisy) {
+			e.r.Count(fmt.Sprintf("class[%s]:only-good-captures", grp), 1)
+		}
+		if len(noisy) > 0 && nGood == 0 {
+			e.r.Count(fmt.Sprintf("class[%s]:only-losing-captures", grp), 1)
+		}
+		if len(quiet) == 1 {
+			mv := quiet[0]
+			what := "piece-move"
+			d := int(mv.To()) - int(mv.From())
+			switch b.SquaresToPiece[mv.From()] {
+			case Pawn:
+				what = "pawn-push"
+				if d == 16 || d == -16 {
+					what = "pawn-double-push"
+				}
+			case King:
+				what = "king-step"
+			}
+			e.r.Count(fmt.Sprintf("class[%s]:only-quiet-is-%s", grp, what), 1)
+		}
+		for _, mv := range quiet {
+			d := int(mv.To()) - int(mv.From())
+			if b.SquaresToPiece[mv.From()] == King && (d == 2 || d == -2) {
+				e.r.Count(fmt.Sprintf("class[%s]:castling-generated", grp), 1)
+				if len(quiet) <= 7 {
+					e.r.Count(fmt.Sprintf("class[%s]:castling-among<=7-quiets", grp), 1)
+				}
+			}
+		}
 		// hash move candidates
 		hms := []move.Move{0}
 		hms = append(hms, all...)
-		for k := 0; k < nRandom; k++ {
+		for k := 0; k < nRnd; k++ {
 			var hm move.Move
 			switch rng.IntN(6) {
 			case 0: // a generated move with a promotion flag added / changed
@@ -863,6 +959,20 @@ func (e *env) c16() {
 			}
 			if res.panicked {
 				bad = "picker panicked"
+			}
+			if st := stageOf[hm]; ipl && st != 0 {
+				// what is left in the hash move's own stage once it is out
+				left := nGood - 1
+				name := "goodstage"
+				if st == 2 {
+					left, name = nRest-1, "reststage"
+				}
+				if left <= 2 {
+					e.r.Count(fmt.Sprintf("run[%s]:hash-leaves-%d-in-%s", grp, left, name), 1)
+				}
+				if nGood+nRest == 1 {
+					e.r.Count(fmt.Sprintf("run[%s]:hash-is-the-only-move", grp), 1)
+				}
 			}
 			if ipl {
 				e.r.Count("hash-pseudo-legal", 1)
